@@ -317,6 +317,27 @@ def check_rc(res, case, ctx):
     res.traces += 1
     if verdict is not None:
         record_failure(res, verdict[0], case, rc_features(case), verdict[1], verdict[2], tb)
+    # deferred observation: a result that was correct when returned must still be correct after a LATER call on other
+    # data (a scratch buffer shared between calls shows only then).  The object kept is a fresh, never observed
+    # result (observing a ragged result flattens it and would detach it from shared memory).
+    prev = getattr(ctx, 'prev_rc', None)
+    if verdict is None:
+        try:
+            keep = L.rc(x)
+            res.transitions += 1
+        except Exception:
+            keep = None
+        if prev is not None:
+            y0, exp0, case0 = prev
+            v0 = judge(observe_seq(y0), exp0, 'revcomp')
+            if v0 is not None:
+                f = rc_features(case0)
+                record_failure(res, 'revcomp-earlier-result-changed-by-later-call', {'op': 'rc_pair', 'first': case0, 'second': case},
+                               {'func': 'get_reverse_complement', 'encoding': f['encoding'], 'shape': f['shape']},
+                               list(exp0), v0[2], None)
+        ctx.prev_rc = (keep, expected, case) if keep is not None else None
+    else:
+        ctx.prev_rc = None
     if nontrivial and case['op'] not in ctx.sampled:
         ctx.sampled.add(case['op'])
         res.sample({'case': case, 'expected': list(expected), 'observed': list(obs) if obs else None,
@@ -572,7 +593,25 @@ def check_tr(res, case, ctx):
 CHECKERS = {'rc': check_rc, 'st': check_st, 'tr': check_tr}
 
 
+def check_rc_pair(res, case, ctx):
+    """replay of a deferred-observation failure: first call, second call, then look at the first result"""
+    L = lib()
+    x1, want1 = construct(res, build_rc_input, case['first'])
+    y1 = L.rc(x1)
+    x2, _ = construct(res, build_rc_input, case['second'])
+    L.rc(x2)
+    L.rc(x2)
+    exp1 = ('flat', M.reverse_complement(want1[1])) if want1[0] == 'flat' else ('rows', M.reverse_complement_rows(want1[1]))
+    v = judge(observe_seq(y1), exp1, 'revcomp')
+    if v is not None:
+        f = rc_features(case['first'])
+        record_failure(res, 'revcomp-earlier-result-changed-by-later-call', case,
+                       {'func': 'get_reverse_complement', 'encoding': f['encoding'], 'shape': f['shape']}, list(exp1), v[2], None)
+
+
 def check_case(res, case, ctx):
+    if case['op'] == 'rc_pair':
+        return check_rc_pair(res, case, ctx)
     CHECKERS[case['op']](res, case, ctx)
 
 
